@@ -5,7 +5,7 @@ from .. import oracle as o
 ID = 'C11'
 RULE = ('one record per (type, version, t, m, p, T, pwd, salt, key, aad, entry point): tag must equal the RFC 9106 transcription; t 1..4, p 1..5, '
         'm from 8p to 256 (quick) / a few thousand (thorough) including m not divisible by 4p and segment lengths > 128, tag lengths 4..300 crossing '
-        '64 and multiples of 32, empty and long inputs; directed parameter sets of Argon2i/id whose (parameter-only) pseudo-random J1 values fall within 2^16 of 0 or 2^32;  both argon2_at and argon2::<T>; Params values built by setter histories (any order, repeated setters, the same Params used for two derivations); distinct = (type, version, t, m, p, T, api)')
+        '64 and multiples of 32, empty and long inputs; directed parameter sets of Argon2i/id whose (parameter-only) pseudo-random J1 values fall within 2^16 of 0 or 2^32;  both argon2_at and argon2::<T>; Params values built by setter histories (any order, repeated setters, the same Params used for two derivations); the builder accepts the whole RFC range (m up to 2^32-1, p up to 2^24-1, t up to 2^32-1; no derivation); distinct = (type, version, t, m, p, T, api)')
 ASSUMPTIONS = ['pure-Python RFC 9106 model pinned by the RFC section 5 vectors; BLAKE2b from hashlib']
 FLOORS = {'evaluations': 250, 'distinct': 200, 'coverage': {'extreme-j1-low': 2, 'm%4p!=0:indep': 15, 'T>64:T%32==0': 10, 'version:0x10:t>1': 10, 'lanes>1': 40, 'builder:repeated-setter': 5, 'builder:p-after-m': 5, 'segment>128:i': 1, 'segment>128:id': 1}}
 THOROUGH_ROUNDS = 8   # thorough tier: generator passes with derived seeds (runner.gen_rounds)
@@ -126,6 +126,21 @@ def gen(tier, seed):
         yield 'argon2b %s %d %s %s %s %s %s %s' % (rng.choice(list(TYPES)), T, rng.data(rng.choice([0, 8, 32])), rng.data(rng.choice([8, 16])), rng.data(rng.choice([0, 8])), rng.data(rng.choice([0, 12])),
                                                     rng.choice(['at', 'arr']), ' '.join(seq))
 
+    # the whole RFC 9106 parameter range is accepted by the builder (m up to 2^32-1 KiB, p up to 2^24-1, t up to 2^32-1), in either
+    # setter order; nothing is allocated here, only the Params value is built
+    MS = [8, 1 << 16, (1 << 20) + 3, (1 << 22) - 1, 1 << 22, (1 << 22) + 1, 1 << 24, (1 << 31) - 1, 1 << 31, (1 << 32) - 1]
+    PS = [1, 2, 3, 255, 256, 65535, 65536, (1 << 24) - 1]
+    for ty in TYPES:
+        for m in MS:
+            for p_ in PS:
+                if (MS.index(m) + PS.index(p_) + list(TYPES).index(ty)) % 3 and not thorough:
+                    continue
+                t = rng.choice([1, 3, 1 << 16, 1 << 31, (1 << 32) - 1])
+                v = rng.choice([0x10, 0x13])
+                order = rng.choice([('m', 'p', 't', 'v'), ('p', 'm', 't', 'v'), ('t', 'v', 'p', 'm'), ('v', 'm', 't', 'p')])
+                val = {'m': 'm=%d' % m, 'p': 'p=%d' % p_, 't': 't=%d' % t, 'v': 'v=0x%x' % v}
+                yield 'argon2_accept %s %s #accept' % (ty, ' '.join(val[k] for k in order))
+
 
 def final_params(setters):
     m, p, t, v = 32, 1, 1, 0x13        # documented defaults of Params::argon2{d,i,id}()
@@ -145,6 +160,10 @@ def final_params(setters):
 
 def check(line, toks):
     f = line.split(' #')[0].split()
+    if f[0] == 'argon2_accept':
+        if toks != ['OK']:
+            return [('C11:argon2%s:rfc-valid-parameters-refused' % f[1], 'setters %s: %s' % (' '.join(f[2:]), ' '.join(toks)[:60]))]
+        return []
     if f[0] == 'argon2b':
         m, p, t, v = final_params(f[8:])
         exp = o.argon2(TYPES[f[1]], v, t, m, p, int(f[2]), expand(f[3]), expand(f[4]), expand(f[5]), expand(f[6])).hex()
@@ -160,6 +179,8 @@ def check(line, toks):
 
 def classify(line):
     f = line.split(' #')[0].split()
+    if f[0] == 'argon2_accept':
+        return ('accept',) + tuple(f[1:])
     if f[0] == 'argon2b':
         return ('builder', f[1], f[2], f[7]) + tuple(f[8:])
     return tuple(f[1:7]) + (f[11],)
@@ -170,6 +191,8 @@ def coverage(line, toks):
     f = body.split()
     if ann.startswith('extreme'):
         return [ann]
+    if f[0] == 'argon2_accept':
+        return ['builder:rfc-range-accepted' if toks == ['OK'] else 'builder:rfc-range-refused']
     if f[0] == 'argon2b':
         ks = [x[0] for x in f[8:]]
         return ['builder-history', 'builder:repeated-setter' if len(set(ks)) < len(ks) else 'builder:each-setter-once',
@@ -197,7 +220,7 @@ def san_subset(lines):
     out = []
     for l in lines:
         f = l.split()
-        if f[0] == 'argon2b':
+        if f[0] in ('argon2b', 'argon2_accept'):
             continue
         if int(f[4]) <= 24 and int(f[3]) <= 2:
             out.append(l)
